@@ -270,15 +270,22 @@ def scenario_fingerprint(resp):
 
 
 def selfcheck(scns, cwd, out=None):
-    """Determinism: the same scenarios on one worker and on many must give the
-    same interleaving fingerprints, decision traces and observations."""
+    """Determinism: the same scenario list, run twice in fresh single workers
+    (identical process histories), must give identical interleaving
+    fingerprints, decision traces and observations. Run on many workers (other
+    process histories) only the observations have to agree: a cache that is a
+    pure function of the environment may legally change which yield points a
+    later generation passes."""
     a = run_requests(scns, workers=1, timeout=900, cwd=os.path.join(cwd, "self-a"), env=SHIM_ENV)
-    b = run_requests(scns, workers=min(16, len(scns)), timeout=900, cwd=os.path.join(cwd, "self-b"), env=SHIM_ENV)
+    b = run_requests(scns, workers=1, timeout=900, cwd=os.path.join(cwd, "self-b"), env=SHIM_ENV)
+    c = run_requests(scns, workers=min(16, len(scns)), timeout=900, cwd=os.path.join(cwd, "self-c"), env=SHIM_ENV)
     bad = [i for i, (x, y) in enumerate(zip(a, b)) if scenario_fingerprint(x) != scenario_fingerprint(y)]
+    obs = lambda r: json.dumps([[obs_of(o) for o in t] for t in r.get("results", [])], sort_keys=True)
+    hist = [i for i, (x, y) in enumerate(zip(a, c)) if obs(x) != obs(y)]
     if bad and out is not None:
         out.harness_errors.append(f"determinism self-check: {len(bad)} of {len(scns)} thread scenarios differ "
-                                  f"between 1 and 16 workers (first: {bad[0]})")
-    return len(scns), len(bad)
+                                  f"between two identical single-worker runs (first: {bad[0]})")
+    return len(scns), len(bad), len(hist)
 
 
 def minimise_scenario(scn, doc_thread, job_id, expected, cwd):
@@ -456,7 +463,7 @@ def run(tier, seed):
         log(f"[C11] histories done: {stats['generations']} generations, {stats['mismatches']} mismatches")
 
         # ---------------------------------------------------- threads under the deterministic scheduler
-        n_thr = 120 if quick else 4000
+        n_thr = 240 if quick else 6000
         scns = []
         for i in range(n_thr):
             rng = Rng.for_case(seed, "c11-threads", i)
@@ -468,7 +475,7 @@ def run(tier, seed):
             threads = []
             # a third of the scenarios put generations that can meet on shared
             # files (same output directory, same working directory) side by side
-            group = rng.pick(contention_groups) if contention_groups and rng.chance(330) else None
+            group = rng.pick(contention_groups) if contention_groups and rng.chance(450) else None
             for t in range(nt):
                 if group:
                     threads.append([mk(rng.pick(group), rng) for _ in range(per)])
@@ -484,9 +491,11 @@ def run(tier, seed):
         for s, r in zip(scns, res):
             stats["thread_scenarios"] += 1
             check_results(s, r, "threads")
-        n_self, bad_self = selfcheck(scns[:6 if quick else 60], cwd, out)
-        stats["determinism_selfcheck"] = {"scenarios_run_twice": n_self, "differing": bad_self}
-        log(f"[C11] determinism self-check: {n_self} scenarios on 1 vs 16 workers, {bad_self} differ")
+        n_self, bad_self, hist_self = selfcheck(scns[:6 if quick else 60], cwd, out)
+        stats["determinism_selfcheck"] = {"scenarios_run_three_times": n_self, "differing_between_identical_runs": bad_self,
+                                          "observations_differing_across_worker_counts": hist_self}
+        log(f"[C11] determinism self-check: {n_self} scenarios, {bad_self} differ between identical runs, "
+            f"{hist_self} differ in observations across worker counts")
         samples.append({"kind": "threads", "threads": [[j["id"] for j in t] for t in scns[0]["threads"]],
                         "sched": scns[0]["sched"], "interleaving_fingerprint": (res[0].get("sched") or {}).get("fingerprint")})
         log(f"[C11] thread scenarios done: {stats['generations']} generations, {stats['mismatches']} mismatches")
